@@ -242,38 +242,41 @@ Section Infer.
     else if rich_asg a && rich_asg b then TRich
     else TAny.
 
+  Definition is_unit (t : ty) : bool := match t with TUnit => true | _ => false end.
+
+  (* tupletype.go:172 CommonElementType, C = commonType *)
+  Definition cet (C : ty -> ty -> ty) (ts : list ty) : ty :=
+    match ts with [] => TAny | t :: r => fold_left C r t end.
+
+  (* commonality.go:72-138: two types of the same Go type are merged member-wise (C = commonType for the
+     nested calls); anything else goes down the ladder *)
+  Definition merge_same (C : ty -> ty -> ty) (a b : ty) : ty :=
+    match a, b with
+    | TArray e lo hi, TArray e' lo' hi' =>
+        let r := common_range lo hi lo' hi' in TArray (C e e') (fst r) (snd r)       (* :75 *)
+    | TFloat lo hi, TFloat lo' hi' => TFloat (Z.min lo lo') (Z.max hi hi')           (* :80 *)
+    | TInteger lo hi, TInteger lo' hi' => TInteger (Z.min lo lo') (Z.max hi hi')     (* :85 *)
+    | TNotUndef t, TNotUndef t' => TNotUndef (C t t')                                (* :108 *)
+    | TPattern rxs, TPattern rxs' => TPattern (sdedup (rxs ++ rxs'))                 (* :113 *)
+    | TTuple ts _ lo hi, TTuple ts' _ lo' hi' =>
+        let r := common_range lo hi lo' hi' in TArray (C (cet C ts) (cet C ts')) (fst r) (snd r)  (* :126 *)
+    | TType t, TType t' => TType (C t t')                                            (* :131 *)
+    | TVariant ts, TVariant ts' => mk_variant (udedup (ts ++ ts'))                   (* :136 *)
+    | _, _ => ladder a b
+    end.
+
   Fixpoint common_f (n : nat) (a b : ty) {struct n} : ty :=
     match n with
     | O => TOutOfFuel
     | S n' =>
-      let C := common_f n' in
-      (* tupletype.go:172 CommonElementType *)
-      let cet := fun ts : list ty => match ts with [] => TAny | t :: r => fold_left C r t end in
-      match a, b with
-      | TUnit, _ => b                                                                   (* :14 *)
-      | _, TUnit => a                                                                   (* :17 *)
-      | _, _ =>
-        if asg a b then a                                                               (* :20 *)
-        else if asg b a then b                                                          (* :23 *)
-        else
-          match string_merge a b with
-          | Some c => c
-          | None =>
-            match a, b with                                                             (* :72 same Go type *)
-            | TArray e lo hi, TArray e' lo' hi' =>
-                let r := common_range lo hi lo' hi' in TArray (C e e') (fst r) (snd r)  (* :75 *)
-            | TFloat lo hi, TFloat lo' hi' => TFloat (Z.min lo lo') (Z.max hi hi')      (* :80 *)
-            | TInteger lo hi, TInteger lo' hi' => TInteger (Z.min lo lo') (Z.max hi hi') (* :85 *)
-            | TNotUndef t, TNotUndef t' => TNotUndef (C t t')                           (* :108 *)
-            | TPattern rxs, TPattern rxs' => TPattern (sdedup (rxs ++ rxs'))            (* :113 *)
-            | TTuple ts _ lo hi, TTuple ts' _ lo' hi' =>
-                let r := common_range lo hi lo' hi' in TArray (C (cet ts) (cet ts')) (fst r) (snd r)  (* :126 *)
-            | TType t, TType t' => TType (C t t')                                       (* :131 *)
-            | TVariant ts, TVariant ts' => mk_variant (udedup (ts ++ ts'))              (* :136 *)
-            | _, _ => ladder a b
-            end
-          end
-      end
+        if is_unit a then b                                                          (* :14 *)
+        else if is_unit b then a                                                     (* :17 *)
+        else if asg a b then a                                                       (* :20 *)
+        else if asg b a then b                                                       (* :23 *)
+        else match string_merge a b with
+             | Some c => c                                                           (* :28-62 *)
+             | None => merge_same (common_f n') a b
+             end
     end.
 
   Definition common (a b : ty) : ty := common_f (S (tsize a + tsize b)) a b.
